@@ -57,6 +57,7 @@ RunVals(w, n) ==
            <<255, 255, 255, 127>>, <<n % 256, (n \div 256) % 256, 0, 0>>, <<0, 0, (n \div 256) % 256, n % 256>>,
            <<(n + 1) % 256, ((n + 1) \div 256) % 256, 0, 0>> }
 
+TextRunes3 == { <<226, 132, 170>>, <<225, 186, 158>> }     \* U+212A, U+1E9E in UTF-8
 TextVals == {0, 32, 45, 46, 47, 48, 57, 58, 71, 103, 123, 125, 128, 255}   \* NUL space - . / 0 9 : G g { } and two non-ASCII bytes
 
 Muts(s, text) ==
@@ -67,6 +68,10 @@ Muts(s, text) ==
     \cup { Mut("set", p, 0, (s[p] + 255) % 256) : p \in PosSet(n) }
     \cup (IF text THEN { Mut("del", p, 0, 0) : p \in PosSet(n) } \cup { Mut("dup", p, 0, 0) : p \in PosSet(n) }
                        \cup { Mut("app", k, 0, 57) : k \in {1, 40, 400} }
+                       \* three octets replaced by one letter that is THREE octets long and whose lower-case form is shorter
+                       \* (U+212A KELVIN SIGN -> k, U+1E9E -> U+00DF): the text keeps its length in bytes and changes it under case
+                       \* mapping -- what a parser that measures, maps and then slices at fixed offsets trips over
+                       \cup { Mut("run", p, 3, v) : p \in {q \in PosSet(n) : q + 2 <= n}, v \in TextRunes3 }
           ELSE { Mut("run", p, 2, v) : p \in {q \in PosSet(n) : q + 1 <= n}, v \in RunVals(2, n) }
                \cup { Mut("run", p, 4, v) : p \in {q \in PosSet(n) : q + 3 <= n}, v \in RunVals(4, n) }
                \cup { Mut("app", k, 0, v) : k \in {1, 7}, v \in {0, 255} })
